@@ -183,8 +183,11 @@ impl NodeStream {
         let ro = if m.read_only() { 1 } else { 0 };
         match m.message_type() {
             MessageType::Request(r) => {
+                // put requests carry a random requester id (puts started in one tick draw them in
+                // `HashMap` order); every other request shows the id as sent: it changes when the node
+                // re-keys (BEP42)
                 let mut r2 = r.clone();
-                if Some(r2.requester_id) != self.own_id {
+                if matches!(r2.request_type, RequestTypeSpecific::Put(_)) {
                     r2.requester_id = Id::from_bytes([0u8; 20]).expect("id");
                 }
                 let (kind, target) = req_kind_word(&r.request_type);
@@ -403,7 +406,11 @@ impl NodeStream {
             StepOutcome::Parked => {}
             StepOutcome::Panicked => {
                 self.alive = false;
-                out.violation("C05", "actor-panic", "the actor thread panicked".into());
+                let msg = LAST_PANIC.lock().map(|l| l.replace('\n', " ")).unwrap_or_default();
+                out.violation("C05", "actor-panic", format!("the actor thread panicked: {msg}"));
+                if msg.contains("with overflow") && (msg.contains("routing_table.rs") || msg.contains("core.rs")) {
+                    out.violation("C20", "stats-underflow", format!("arithmetic on the node's statistics overflowed: {msg}"));
+                }
             }
             StepOutcome::Dead => self.alive = false,
             StepOutcome::Stuck => {
@@ -855,6 +862,10 @@ impl Stream for NodeStream {
                 self.render_step()
             }
             "api" => {
+                if !self.alive {
+                    // the actor thread is gone (its panic was reported when it happened)
+                    return "node-dead".into();
+                }
                 let no: u32 = t[1].trim_start_matches('c').parse().expect("call no");
                 let toks = &t[3..];
                 let d = self.dht.as_ref().expect("dht").clone().as_async();
@@ -961,6 +972,10 @@ pub struct VPeer {
     pub extra_delay: u64,
     /// added to the latency of this peer's replies to put requests only
     pub put_delay: u64,
+    /// never answers lookups (find_node / get_* requests), still answers pings and puts
+    pub ignore_gets: bool,
+    /// never answers put requests
+    pub ignore_puts: bool,
 }
 
 pub struct VNet {
@@ -988,7 +1003,7 @@ impl VNet {
             let addr = SocketAddrV4::new(ip, 6881);
             let id = Id::from_bytes(rng.id20()).expect("id");
             by_addr.insert(addr, i);
-            peers.push(VPeer { id, addr, alive: true, mode: 0, read_only: false, imm: HashMap::new(), muts: HashMap::new(), peers: HashMap::new(), speers: HashMap::new(), put_reply: 0, forge: 0, extra_delay: 0, put_delay: 0 });
+            peers.push(VPeer { id, addr, alive: true, mode: 0, read_only: false, imm: HashMap::new(), muts: HashMap::new(), peers: HashMap::new(), speers: HashMap::new(), put_reply: 0, forge: 0, extra_delay: 0, put_delay: 0, ignore_gets: false, ignore_puts: false });
         }
         VNet { peers, by_addr }
     }
@@ -1195,11 +1210,15 @@ pub struct Driver<'a> {
     /// datagrams the node sends to its own address come back (it is publicly reachable)
     pub reachable: bool,
     pub known: std::collections::HashSet<String>,
+    /// the address the peers report seeing the node at (default: its real address)
+    pub report_ip: Option<SocketAddrV4>,
+    /// (request key, sender, message) of every answer delivered to the node
+    pub delivered: Vec<(String, SocketAddrV4, MessageType)>,
 }
 
 impl<'a> Driver<'a> {
     pub fn new(out: &'a mut Out, seed: u64, net: VNet) -> Self {
-        Driver { s: NodeStream::new(), out, rng: Rng::new(seed), net, queue: vec![], latency: 5 * MS, seq: 0, next_call: 0, drop_pct: 0, dup_pct: 0, late_pct: 0, reachable: false, known: Default::default() }
+        Driver { s: NodeStream::new(), out, rng: Rng::new(seed), net, queue: vec![], latency: 5 * MS, seq: 0, next_call: 0, drop_pct: 0, dup_pct: 0, late_pct: 0, reachable: false, known: Default::default(), report_ip: None, delivered: vec![] }
     }
     /// a peer sends a request to the node
     pub fn inject_request(&mut self, from: SocketAddrV4, requester: Id, rt: RequestTypeSpecific, ro: bool) {
@@ -1207,12 +1226,17 @@ impl<'a> Driver<'a> {
         self.queue.push(InFlight { due: verif::now_ns(), from, re: None, mt: MessageType::Request(dht::RequestSpecific { requester_id: requester, request_type: rt }), ro, ip: None, seq: self.seq });
     }
     pub fn begin(&mut self, mode: &str, boot: &[SocketAddrV4], public: Option<Ipv4Addr>, seed: u64, t0: u64) {
+        self.begin_at(mode, boot, public, None, seed, t0)
+    }
+    /// `ip`: the node's real address when it is not the configured public one
+    pub fn begin_at(&mut self, mode: &str, boot: &[SocketAddrV4], public: Option<Ipv4Addr>, ip: Option<Ipv4Addr>, seed: u64, t0: u64) {
         let b = if boot.is_empty() { "-".to_string() } else { boot.iter().map(addr_s).collect::<Vec<_>>().join(",") };
         let p = public.map(|ip| u32::from(ip).to_string()).unwrap_or("-".into());
         self.queue.clear();
         self.known.clear();
         self.next_call = 0;
-        self.out.begin(&mut self.s, &format!("node mode={mode} boot={b} pub={p} seed={seed} t0={t0}"));
+        let ip = ip.map(|ip| format!(" ip={}", u32::from(ip))).unwrap_or_default();
+        self.out.begin(&mut self.s, &format!("node mode={mode} boot={b} pub={p}{ip} seed={seed} t0={t0}"));
         self.run("init".into());
     }
     pub fn handle_sent(&mut self, sent: &[Sent]) {
@@ -1233,6 +1257,10 @@ impl<'a> Driver<'a> {
             let mt = self.net.reply(i, req, self.s.addr);
             let ro = self.net.peers[i].read_only;
             let is_put = matches!(req.request_type, RequestTypeSpecific::Put(_));
+            let is_ping = matches!(req.request_type, RequestTypeSpecific::Ping);
+            if (is_put && self.net.peers[i].ignore_puts) || (!is_put && !is_ping && self.net.peers[i].ignore_gets) {
+                continue;
+            }
             let mut due = now + self.latency + self.net.peers[i].extra_delay + if is_put { self.net.peers[i].put_delay } else { 0 };
             if self.rng.below(100) < self.drop_pct {
                 continue;
@@ -1241,10 +1269,11 @@ impl<'a> Driver<'a> {
                 due = now + 600 * MS;
             }
             self.seq += 1;
-            self.queue.push(InFlight { due, from, re: s.key.clone(), mt: mt.clone(), ro, ip: Some(self.s.addr), seq: self.seq });
+            let seen_as = Some(self.report_ip.unwrap_or(self.s.addr));
+            self.queue.push(InFlight { due, from, re: s.key.clone(), mt: mt.clone(), ro, ip: seen_as, seq: self.seq });
             if self.net.peers[i].mode == 2 || self.rng.below(100) < self.dup_pct {
                 self.seq += 1;
-                self.queue.push(InFlight { due: due + MS, from, re: s.key.clone(), mt, ro, ip: Some(self.s.addr), seq: self.seq });
+                self.queue.push(InFlight { due: due + MS, from, re: s.key.clone(), mt, ro, ip: seen_as, seq: self.seq });
             }
         }
     }
@@ -1268,6 +1297,9 @@ impl<'a> Driver<'a> {
                 }
             }
             let line = step_line(&f);
+            if let Some(k) = &f.re {
+                self.delivered.push((k.clone(), f.from, f.mt.clone()));
+            }
             self.run(line);
         } else {
             self.run("step".into());
@@ -1319,6 +1351,59 @@ impl<'a> Driver<'a> {
             self.run("step".into());
         }
         self.run("quiet".into());
+    }
+}
+
+/// responder id and listed nodes of an answer
+pub fn resp_nodes(r: &ResponseSpecific) -> (Id, Vec<Node>) {
+    let on = |n: &Option<Box<[Node]>>| n.as_ref().map(|n| n.to_vec()).unwrap_or_default();
+    match r {
+        ResponseSpecific::Ping(a) => (a.responder_id, vec![]),
+        ResponseSpecific::FindNode(a) => (a.responder_id, a.nodes.to_vec()),
+        ResponseSpecific::GetPeers(a) => (a.responder_id, on(&a.nodes)),
+        ResponseSpecific::GetSignedPeers(a) => (a.responder_id, on(&a.nodes)),
+        ResponseSpecific::GetImmutable(a) => (a.responder_id, on(&a.nodes)),
+        ResponseSpecific::GetMutable(a) => (a.responder_id, on(&a.nodes)),
+        ResponseSpecific::NoValues(a) => (a.responder_id, on(&a.nodes)),
+        ResponseSpecific::NoMoreRecentValue(a) => (a.responder_id, on(&a.nodes)),
+    }
+}
+
+impl<'a> Driver<'a> {
+    /// C07, in a loss-free network of honest, responsive peers with one node per IP: run one lookup
+    /// to its end and check the Kademlia closure.  Among the nodes that answered it or were listed
+    /// in the answers, the 20 first ones in the lookup's order (BEP42-secure ids first, then XOR
+    /// distance to the target) must all have been queried.
+    pub fn lookup_and_check_closure(&mut self, call: String, target: &Id) {
+        let sent_before = self.s.all_sent.len();
+        let delivered_before = self.delivered.len();
+        self.api(call.clone());
+        self.settle(30 * SEC, 10 * MS);
+        let suffix = format!("/{}", hex(target.as_bytes()));
+        let queried: std::collections::HashSet<SocketAddrV4> = self.s.all_sent[sent_before..].iter().filter(|x| x.key.as_deref().map(|k| k.ends_with(&suffix) && !k.contains("/put/")).unwrap_or(false)).map(|x| x.to).collect();
+        let mut seen: Vec<Node> = vec![];
+        for (k, from, mt) in &self.delivered[delivered_before..] {
+            if !k.ends_with(&suffix) || k.contains("/put/") {
+                continue;
+            }
+            if let MessageType::Response(r) = mt {
+                let (rid, nodes) = resp_nodes(r);
+                for n in std::iter::once(Node::new(rid, *from)).chain(nodes.into_iter()) {
+                    if n.address() != self.s.addr && !seen.iter().any(|e| e.address() == n.address()) {
+                        seen.push(n);
+                    }
+                }
+            }
+        }
+        let t = *target.as_bytes();
+        seen.sort_by_key(|n| (!crate::streams::id::valid_ref(n.id().as_bytes(), *n.address().ip()), n.id().as_bytes().iter().zip(t.iter()).map(|(a, b)| a ^ b).collect::<Vec<u8>>()));
+        self.out.count(&format!("closure-checked:seen>20={}", seen.len() > 20));
+        for (rank, n) in seen.iter().take(20).enumerate() {
+            if !queried.contains(&n.address()) {
+                self.out.violation("C07", "closest-entry-not-queried", format!("`{call}` finished without querying {}@{}, which is entry {} of {} (secure ids first, then XOR distance) among the nodes that answered or were listed in the answers", hex(n.id().as_bytes()), addr_s(&n.address()), rank + 1, seen.len()));
+                break;
+            }
+        }
     }
 }
 
@@ -1413,6 +1498,21 @@ pub fn run(out: &mut Out, seed: u64, thorough: bool, replay: Option<&str>) {
         d.settle(20 * SEC, 10 * MS);
         d.api(format!("find_node t={}", hex(t.as_bytes())));
         d.settle(20 * SEC, 10 * MS);
+        // lookups of every other kind replaced in the cache, each on its own target (the signed-peers
+        // ones are accounted in the signed-peers table's statistics)
+        let t2 = Id::from_bytes(rng.id20()).expect("id");
+        let t3 = Id::from_bytes(rng.id20()).expect("id");
+        for _ in 0..3 {
+            d.api(format!("get_speers ih={}", hex(t2.as_bytes())));
+            d.settle(20 * SEC, 10 * MS);
+            d.run("snap".into());
+            d.api(format!("get_peers ih={}", hex(t3.as_bytes())));
+            d.settle(20 * SEC, 10 * MS);
+            d.run("snap".into());
+        }
+        d.api(format!("get_speers ih={}", hex(t.as_bytes())));
+        d.settle(20 * SEC, 10 * MS);
+        d.run("snap".into());
         d.finish();
         d.out.mark_distinct(d.rng.0 ^ 0xb ^ round as u64);
         d.s.shutdown();
@@ -1753,6 +1853,126 @@ pub fn run(out: &mut Out, seed: u64, thorough: bool, replay: Option<&str>) {
         d.out.mark_distinct(fnv(format!("J{with_find_node}").as_bytes()));
         d.s.shutdown();
     }
+    // ---- K: a public network of BEP42-secure and insecure ids with more candidates than k (C07), seen
+    //         from a node whose public address is not configured: it learns it from its peers' votes,
+    //         confirms it by self-ping and re-keys without forgetting the nodes it knows (C13)
+    for round in 0..(if thorough { 6 } else { 2 }) {
+        t0 += 10_000_000_000_000;
+        let n = [45usize, 70, 30][round % 3];
+        let mut net = VNet::new(&mut rng, n, false);
+        for (i, p) in net.peers.iter_mut().enumerate() {
+            if i % 2 == 0 {
+                let r = rng.below(256) as u8;
+                p.id = Id::from_bytes(crate::streams::closest::secure_id(&mut rng, *p.addr.ip(), r)).expect("id");
+            }
+        }
+        let boot = vec![net.peers[0].addr];
+        let mut d = Driver::new(out, rng.next(), net);
+        d.reachable = true;
+        d.begin_at("c", &boot, None, Some(Ipv4Addr::new(45, 9, 9, 9)), rng.next() % 1_000_000 + 1, t0);
+        // step by step through the bootstrap, looking at the table after every step: the node confirms its
+        // address and re-keys here, and must still know the nodes it knew
+        let mut last_size = 0usize;
+        let mut last_fw = true;
+        for _ in 0..(if thorough { 300 } else { 150 }) {
+            d.pump(5 * MS);
+            d.run("snap".into());
+            if let Some(sn) = d.s.last_snapshot.clone() {
+                let size = sn.routing_table.len();
+                if last_fw && !sn.firewalled && last_size >= 2 && size == 0 {
+                    d.out.violation("C13", "rekey-forgets-known-nodes", format!("the node confirmed its address {:?} and took a BEP42 id for it, and its routing table went from {last_size} nodes to none", sn.public_address));
+                }
+                last_size = size;
+                last_fw = sn.firewalled;
+            }
+        }
+        d.run_for(2 * SEC, 10 * MS);
+        d.run("snap".into());
+        for k in 0..(if thorough { 8 } else { 4 }) {
+            let t = Id::from_bytes(rng.id20()).expect("id");
+            let call = match k % 4 {
+                1 => format!("find_node t={}", hex(t.as_bytes())),
+                2 => format!("get_peers ih={}", hex(t.as_bytes())),
+                _ => format!("get_imm t={}", hex(t.as_bytes())),
+            };
+            d.lookup_and_check_closure(call, &t);
+        }
+        let v = format!("stored in a mixed network {round}").into_bytes();
+        d.api(format!("put_imm v={}", hex(&v)));
+        d.settle(20 * SEC, 10 * MS);
+        d.api(format!("get_imm t={}", hex(imm_target(&v).as_bytes())));
+        d.settle(20 * SEC, 10 * MS);
+        let ih = Id::from_bytes(rng.id20()).expect("id");
+        d.api(format!("announce ih={} port=implied", hex(ih.as_bytes())));
+        d.settle(20 * SEC, 10 * MS);
+        d.run("snap".into());
+        d.finish();
+        d.out.mark_distinct(fnv(format!("K{round}").as_bytes()));
+        d.out.count("mixed-secure-network");
+        d.s.shutdown();
+    }
+    // ---- F2: adaptive node confirmed at address A; then its peers report another address B that is
+    //          not reachable (C18): firewalled again, still a client after the next refresh
+    for explicit_server in [false, true] {
+        t0 += 10_000_000_000_000;
+        let net = VNet::new(&mut rng, 6, false);
+        let boot = vec![net.peers[0].addr];
+        let mut d = Driver::new(out, rng.next(), net);
+        d.reachable = true;
+        let pub_ip = Ipv4Addr::new(45, 7, 7, 7);
+        d.begin(if explicit_server { "s" } else { "c" }, &boot, Some(pub_ip), rng.next() % 1_000_000 + 1, t0);
+        d.run_for(3 * SEC, 10 * MS);
+        d.run("snap".into());
+        let confirmed = d.s.last_snapshot.as_ref().map(|s| !s.firewalled).unwrap_or(false);
+        let b = SocketAddrV4::new(Ipv4Addr::new(46, 8, 8, 8), 6881);
+        d.report_ip = Some(b);
+        let t = Id::from_bytes(rng.id20()).expect("id");
+        d.api(format!("find_node t={}", hex(t.as_bytes())));
+        d.settle(20 * SEC, 10 * MS);
+        d.run("snap".into());
+        if let Some(sn) = d.s.last_snapshot.clone() {
+            if confirmed && sn.public_address == Some(b) && !sn.firewalled {
+                d.out.violation("C18", "unconfirmed-address-not-firewalled", format!("the peers now report {b}, which no self-ping has confirmed, and the node does not consider itself firewalled"));
+            }
+        }
+        d.run_for(16 * 60 * SEC, SEC);
+        d.run_for(3 * SEC, 10 * MS);
+        d.run("snap".into());
+        if let Some(sn) = d.s.last_snapshot.clone() {
+            if !explicit_server && sn.public_address == Some(b) && sn.server_mode {
+                d.out.violation("C18", "nat-became-server", format!("a node whose reported address {b} is not reachable switched to server mode (firewalled={})", sn.firewalled));
+            }
+        }
+        d.finish();
+        d.out.mark_distinct(fnv(format!("F2{explicit_server}").as_bytes()));
+        d.s.shutdown();
+    }
+    // ---- L: a put started from the lookup cache is storing when another lookup of the same target
+    //         ends with no responders at all (C08): one node acknowledged, so the put is Ok
+    for acks in [1usize, 0] {
+        t0 += 10_000_000_000_000;
+        let net = VNet::new(&mut rng, 4, true);
+        let boot = vec![net.peers[0].addr];
+        let mut d = Driver::new(out, rng.next(), net);
+        d.begin("c", &boot, None, rng.next() % 1_000_000 + 1, t0);
+        d.run_for(2 * SEC, 10 * MS);
+        let v = format!("scenario L {acks}").into_bytes();
+        let t = imm_target(&v);
+        d.api(format!("get_imm t={}", hex(t.as_bytes())));
+        d.settle(20 * SEC, 10 * MS);
+        for (i, p) in d.net.peers.iter_mut().enumerate() {
+            p.ignore_gets = true;
+            p.ignore_puts = i >= acks;
+        }
+        d.api(format!("get_imm t={}", hex(t.as_bytes())));
+        d.run_for(150 * MS, 10 * MS);
+        let want = if acks > 0 { "ok" } else { "timeout" };
+        d.api(format!("put_imm v={} expect={want} prop=C08", hex(&v)));
+        d.settle(30 * SEC, 10 * MS);
+        d.finish();
+        d.out.mark_distinct(fnv(format!("L{acks}").as_bytes()));
+        d.s.shutdown();
+    }
     // ---- I: more than 1000 distinct lookup targets roll the lookup cache (C20)
     {
         t0 += 10_000_000_000_000;
@@ -1764,9 +1984,10 @@ pub fn run(out: &mut Out, seed: u64, thorough: bool, replay: Option<&str>) {
         let n = if thorough { 2100 } else { 1030 };
         for i in 0..n {
             let t = Id::from_bytes(d.rng.id20()).expect("id");
-            let call = match i % 3 {
+            let call = match i % 4 {
                 0 => format!("get_peers ih={}", hex(t.as_bytes())),
                 1 => format!("find_node t={}", hex(t.as_bytes())),
+                2 => format!("get_speers ih={}", hex(t.as_bytes())),
                 _ => format!("get_imm t={}", hex(t.as_bytes())),
             };
             d.api(call);
